@@ -270,7 +270,7 @@ class C13:
                  **{"n_" + k: v for k, v in classes.items()})
         for k in classes:
             chk.outcome("%s/%s" % (part.split(".")[0], k))
-        for d in list(distinct)[:300]:
+        for d in sorted(distinct)[:300]:
             chk.outcome("v:" + d)
         if mism:
             self.report_read(part, mism, base, via, fixed_sigs)
